@@ -179,6 +179,9 @@ pub enum Op {
     /// result of this thread equals v
     SkipNextUnless { v: i8 },
     PanicIf { v: i8 },
+    /// arm a guard owned by this thread whose destructor (at thread end, or while a failure
+    /// unwinds) stores to atomic `a`: the common "reset a flag on drop" idiom
+    DropGuardStore { a: u8 },
     /// `cell.with_mut(|_| panic!("injected failure"))` / the same inside an atomic's `with_mut`
     PanicInCellMut { c: u8 },
     PanicInAtomMut { a: u8 },
@@ -251,6 +254,7 @@ impl Program {
             | Op::Await { a, .. }
             | Op::AtomWithMut { a }
             | Op::PanicInAtomMut { a }
+            | Op::DropGuardStore { a }
             | Op::AtomUnsyncLoad { a } => Some(*a),
             _ => None,
         })
@@ -439,6 +443,7 @@ impl fmt::Display for Op {
             LazyCellRead { k } => write!(f, "lazy{}.cell_read", k),
             SkipNextUnless { v } => write!(f, "skip_next_unless({})", v),
             PanicIf { v } => write!(f, "panic_if({})", v),
+            DropGuardStore { a } => write!(f, "x{}.store_on_drop", a),
             PanicInCellMut { c } => write!(f, "c{}.with_mut(panic)", c),
             PanicInAtomMut { a } => write!(f, "x{}.with_mut(panic)", a),
             StopExploring => write!(f, "stop_exploring"),
